@@ -37,7 +37,7 @@ def is_qm_lock_decl(s):
 def analyse(body):
     """(decrement found, decrement is preceded in its own compound statement — or an enclosing one — by a lock on queueListMutex,
        notify_one is NOT required to be inside)"""
-    found = {'dec': False, 'locked': False}
+    found = {'dec': False, 'locked': True}      # locked: EVERY decrement found is inside a lock scope
 
     def rec(comp, locked):
         lk = locked
@@ -47,7 +47,7 @@ def analyse(body):
                 continue
             if any(is_decrement(x) for x in walk(s)) and s.get('kind') != 'CompoundStmt' and not any(c.get('kind') == 'CompoundStmt' for c in walk(s) if c is not s):
                 found['dec'] = True
-                found['locked'] = lk
+                found['locked'] = found['locked'] and lk
             elif s.get('kind') == 'CompoundStmt':
                 rec(s, lk)
             else:
